@@ -109,6 +109,7 @@ class TaskResult:
         self.harness_errors = []
         self.exhaustive = {}      # name -> size
         self.wall = 0.0
+        self.first_rejected = None   # example of an explicit refusal
 
     def account(self, sc, outcome, ctx, info, choices, want_sample):
         self.evaluations += 1
@@ -117,6 +118,9 @@ class TaskResult:
             self.labels[lab] += 1
         if outcome == 'rejected':
             self.labels['rejected:' + re.sub(r'[0-9]+(\.[0-9]+)?(e[+-]?[0-9]+)?', '#', info.why)[:60]] += 1
+            if self.first_rejected is None:
+                self.first_rejected = {'choices': choices, 'why': info.why,
+                                       'desc': dict(ctx.desc)}
         if outcome == 'borderline':
             self.labels['borderline'] += 1
         if ctx._nontrivial and outcome in ('ok', 'violation'):
@@ -422,6 +426,11 @@ def do_replay(pid, path):
     if outcome == 'harness_error':
         print(info)
         return 2
+    if doc.get('expect_outcome') == 'rejected' and outcome == 'rejected':
+        # example case of a refusal-rate violation
+        print(f'refused: {info.why}\n  {doc.get("detail", "")}')
+        print(f'VIOLATION property={pid} replay={path}')
+        return 1
     print('no violation reproduced on this tree')
     return 0
 
@@ -557,6 +566,8 @@ def main(argv=None):
             tgt.outcomes.update(res.outcomes)
             tgt.exhaustive.update(res.exhaustive)
             tgt.wall += res.wall
+        if ps.first_rejected is None and res.first_rejected is not None:
+            ps.first_rejected = res.first_rejected
         if len([s for s in merged.samples if s['subcheck'] == sub_name]) < 1:
             merged.samples.extend(res.samples[:1])
         harness_errors.extend(res.harness_errors)
@@ -570,6 +581,25 @@ def main(argv=None):
                     cnt = merged.violations[sig]['count']
                     merged.violations[sig] = dict(v, count=cnt)
     violations = merged.violations
+    # explicit refusals are allowed case by case (EM may collapse a component,
+    # a solver may find no feasible start), but a library that refuses a large
+    # share of the valid inputs of a sub-check does not have the property: the
+    # unchanged tree refuses 0-8 % (up to 24 % where degenerate data are drawn
+    # on purpose: C01, C09, C20)
+    for sub_name, ps in per_sub.items():
+        n_rej = int(ps.outcomes.get('rejected', 0))
+        limit = 0.5 if pid in ('C01', 'C09', 'C20') else 0.3
+        if ps.evaluations >= 40 and n_rej > limit * ps.evaluations and \
+                ps.first_rejected is not None:
+            sig = f'{sub_name}/library-refuses-valid-input-too-often'
+            violations[sig] = {
+                'sig': sig, 'sub': sub_name,
+                'clause': 'library-refuses-valid-input-too-often',
+                'detail': f'{n_rej} of {ps.evaluations} generated inputs refused with an '
+                          f'explicit exception (limit {limit:.0%}); example: '
+                          f'{ps.first_rejected["why"]}',
+                'attrs': {}, 'choices': ps.first_rejected['choices'], 'count': n_rej,
+                'desc': ps.first_rejected['desc'], 'expect_outcome': 'rejected'}
 
     # ---- shrink + report --------------------------------------------------
     exit_code = 0
@@ -593,6 +623,11 @@ def main(argv=None):
                 clause = v['clause']
                 detail = v['detail'] + ' [history minimised by the Hypothesis shrinker]'
             info = _S()
+        elif v.get('expect_outcome'):
+            class _R:
+                clause = v['clause']
+                detail = v['detail']
+            info = _R()
         else:
             try:
                 c2, ctx, info, runs = shrink(sc, v['choices'], sig, max_runs, max_s)
@@ -613,6 +648,8 @@ def main(argv=None):
         if 'steps' in v:
             extra['steps'] = v['steps']
             extra['trainer_kwargs'] = v.get('trainer_kwargs', {})
+        if v.get('expect_outcome'):
+            extra['expect_outcome'] = v['expect_outcome']
         path = write_replay(pid, sc, sig, choices, ctx, info, extra,
                             'regress' if args.save_regress else 'replay')
         rel = os.path.relpath(path, ROOT)
